@@ -142,7 +142,7 @@ Ltac rw_run :=
 
 (* BR is insensitive to what the abstract state records besides its run *)
 Lemma BR_run bs a0 acur acur' aend : a_run acur' = a_run acur -> BR bs a0 acur aend -> BR bs a0 acur' aend.
-Proof. unfold BR. intros ->. tauto. Qed.
+Proof. unfold BR. intros E H. rewrite E. exact H. Qed.
 
 (* the result of one `read` inside an open bundle *)
 Lemma Rb_read b r X n o rd d z :
